@@ -5,24 +5,24 @@ ROOT = os.path.dirname(os.path.dirname(os.path.abspath(__file__)))
 props = [json.loads(l) for l in open(os.path.join(ROOT, 'properties.jsonl'))]
 SEQ = "symbolic execution of go/ssa of the real code + SMT (z3 5.1.0, cvc5 fallback)"
 CLAIMS = {
- "C02": ("bounded symbolic model checking of the real broker (Broker loop, ProxyPolls, ClientOffers, ProxyAnswers) under the engine's scheduler: every interleaving of synchronisation operations and timer expiries for up to 2 proxy polls and 2 clients, wiring oracle at the encoder sinks",
+ "C02": ("bounded symbolic model checking of the real broker (Broker loop, ProxyPolls, ClientOffers, ProxyAnswers) under the engine's scheduler: every interleaving of synchronisation operations and timer expiries for up to 2 proxy polls and 2 clients (2+2: bounded preemptions), wiring oracle at the encoder sinks; LoadBridgeInfo line by line with JSON assignment semantics in the Decoder stub",
          "message codecs and prometheus stubbed (listed in the evidence); data-race freedom between synchronisation points assumed (sleep-set reduction)", SEQ + "; schedule choices enumerated as decision variables with sleep sets"),
  "C03": ("bounded symbolic model checking of AddSnowflake/matchSnowflake/heap code against a two-pool reference model: every history of register / time-out / match operations up to the bound with symbolic NAT classes and 64-bit client counts",
          "prometheus stubbed; sequential histories (concurrent competition is in C02/C04)", SEQ),
  "C04": ("the same exploration as C02 with the liveness oracle: in every terminal state (nothing can move, all timers fired) every handler call has returned, the id map and both pools are empty and a fresh client is told there are no proxies; deadlocks and leaked goroutines are violations",
          "as C02; 'bounded time' is decided as deadlock-freedom under arbitrary timer expiry (the 10 s constants then bound the time)", SEQ + "; schedule choices enumerated with sleep sets; deadlock/leak oracle"),
- "C06": ("bounded symbolic model checking of the real namematcher: the superset law for every pattern pair and hostname up to the stated lengths (any bytes)",
-         "string helpers executed from Go source; bytealg primitives are engine intrinsics; broker/proxy call sites: see DESIGN.md", SEQ),
- "C08": ("symbolic execution of IsLocal/IsUnspecified/IsLoopback for all 2^32 IPv4 and all 2^128 16-byte addresses against the RFC reference predicate",
-         "net.IP methods executed from Go source; SDP/ICE parsing (pion) outside the claim", SEQ),
+ "C06": ("bounded symbolic model checking of the real namematcher: the superset law for every pattern pair and hostname up to the stated lengths (any bytes); the broker never registers a proxy whose (presumed) pattern is not a superset of the allowed pattern installed through InstallBridgeListProfile; the proxy's runSession/datachannelHandler never dial a broker-supplied URL whose hostname fails its own pattern",
+         "string helpers executed from Go source; bytealg primitives are engine intrinsics; net/url uninterpreted", SEQ),
+ "C08": ("symbolic execution of IsLocal/IsUnspecified/IsLoopback for all 2^32 IPv4 and all 2^128 16-byte addresses against the RFC reference predicate; StripLocalAddresses over pion-parsed descriptions with arbitrary parser outcomes (<=2 media sections x <=2 attributes); the client and proxy call sites send the stripped description unless keep-local is set (client: through the real newBrokerChannelFromConfig)",
+         "net.IP methods executed from Go source; SDP/ICE parsing (pion) stubbed by contract and outside the claim", SEQ),
  "C09": ("bounded symbolic model checking of the real encapsulation code against a reference codec written from the package comment: all chunk lengths 0..2^20-1, all prefix forms, all cut points and all reader fragmentations within the stated number of items and Read calls",
          "bounds per job in checks/C09.json and in the evidence", SEQ + ", differential against a reference decoder"),
  "C12": ("symbolic execution of every Encode*/Decode* in common/messages with encoding/json replaced by havoc/sink stubs: forbidden messages are rejected, valid ones return their fields with the documented defaults, decode(encode(x)) returns x; FingerprintFromHexString through the real encoding/hex",
          "encoding/json itself and JSON member names are outside the claim (exercised only by the native replays)", SEQ + "; JSON havoc stubs"),
- "C13": ("symbolic execution of DeserializeSessionDescription with json.Unmarshal replaced by an arbitrary-map stub (members of every JSON dynamic type): value or error, never a panic; the four SDP types map to themselves",
-         "encoding/json contract (dynamic types of decoded values) trusted; pion SDP/ICE parsers outside the claim", SEQ + "; JSON havoc stub"),
- "C18": ("bounded symbolic model checking of the real clientIDMap against a 'last capacity Sets' reference for every Set/Get history up to the bound and capacities 0..3, and of clientAddr with net.ParseIP as an uninterpreted function",
-         "net.ParseIP / TCPAddr.String are uninterpreted; KCP session identity outside the claim", SEQ),
+ "C13": ("symbolic execution of DeserializeSessionDescription with json.Unmarshal replaced by an arbitrary-map stub (members of every JSON dynamic type): value or error, never a panic; the four SDP types map to themselves; Deserialize(Serialize(d)) == d for the four types and every ASCII SDP text up to the bound, with encoding/json modelled as the struct-tag mapping of the value actually marshalled; remoteIPFromSDP for every combination of parser outcomes (a value returned with an error is unusable)",
+         "encoding/json contract (dynamic types of decoded values, struct-tag mapping: validated against the real library by the self-test and native replays) trusted; JSON text syntax and pion SDP/ICE parsers outside the claim", SEQ + "; JSON havoc stub and struct-tag model"),
+ "C18": ("bounded symbolic model checking of the real clientIDMap against a 'last capacity Sets' reference for every Set/Get history up to the bound and capacities 0..3, of clientAddr with net.ParseIP as an uninterpreted function and, in a second job, with the real net.ParseIP / netip.ParseAddr and address formatting executed symbolically on every short string; acceptStreams looks the address up once per session; attribution in the two-carrier scenario; a lookup racing an evicting Set",
+         "KCP session identity outside the claim; address strings longer than the bound", SEQ),
 }
 CLAIMS.update({
  "C07": ("regex bridge: the scrubber's pattern constants are extracted from the SSA of safelog's init on every run, translated (regexp/syntax -> SMT-LIB regex theory) and, per reference address family and delimiter context, the solver decides that no text containing such an address lacks a match (language inclusion, unbounded length); the engine decides that Scrub returns a fixpoint of the one-pass replacement and that LogScrubber.Write emits exactly the complete lines independently of write splitting; solver-generated multi-address lines are run through the real Scrub",
@@ -30,9 +30,9 @@ CLAIMS.update({
          "regexp/syntax -> SMT regex theory (z3 5.1.0 || cvc5 portfolio) + symbolic execution of go/ssa for Scrub's structure and the line buffer"),
  "C10": ("partial: bounded symbolic model checking of the armor encoder (one inductive step from any counter state: words <=32 bytes, elements <=32 KiB, balanced pre elements, every byte once), the whitespace splitter (bufio.SplitFunc contract, maximal tokens) and the decoder's state machine over an arbitrary token source",
          "the end-to-end round trip runs through x/net/html's tokenizer, encoding/base64's streaming decoder and an io.Pipe goroutine and is outside the claim", SEQ),
- "C11": ("partial: symbolic execution of EncodePath/DecodePath with the real encoding/base64 (round trip for every poll up to the bound, any padding), limitedRead and both client Exchange methods (fronting, status, 100 KB limit with real 100000/100001-byte bodies), the broker's AMP endpoint (decoded path handed to ClientOffers, exactly its response armored) and the domain-prefix selection/fallback label",
-         "net/url, http.NewRequest, amp.CacheURL's path construction, IDNA and the SHA-256 value are stubbed/outside", SEQ),
- "C14": ("symbolic execution of the real HTTP handlers with a recording ResponseWriter: every endpoint x method x body outcome returns (no panic, no hang) and a follow-up poll is still answered; legacy client requests map to the versioned outcome for every NAT header value",
+ "C11": ("partial: symbolic execution of EncodePath/DecodePath with the real encoding/base64 (round trip for every poll up to the bound, any padding), limitedRead and both client Exchange methods (fronting, status, 100 KB limit with real 100000/100001-byte bodies), the broker's AMP endpoint (decoded path handed to ClientOffers, exactly its response armored) the domain-prefix selection/fallback label, the basic domain-prefix transformation with the real strings.Replace, and CacheURL's wiring and rejections",
+         "net/url, http.NewRequest, IDNA and the SHA-256 value are stubbed/outside", SEQ),
+ "C14": ("symbolic execution of the real HTTP handlers with a recording ResponseWriter: every endpoint x method x body outcome returns (no panic, no hang) and a follow-up poll is still answered (also after a rejected poll and with /debug served while brokering); legacy client requests map to the versioned outcome for every NAT header value",
          "net/http's own request parsing, real 100 KB bodies, /prometheus and the /metrics file are outside; proxy polls that wait in RequestOffer are C04's scenarios", SEQ),
  "C15": ("bounded symbolic model checking of the real Peers / connectLoop / NewWebRTCPeerWithEvents code: every sequence of collect / peer-closes-on-its-own / pop / End up to the bound (sequential), End racing Collect and End with a clogged spare queue under every schedule, and every combination of pion/rendezvous failures in one connection attempt",
          "pion API stubbed by contract (arbitrary success/failure; methods dereference their receiver); SOCKS layer and process exit status outside", SEQ + "; schedule choices enumerated with sleep sets; deadlock/leak oracle"),
@@ -40,13 +40,13 @@ CLAIMS.update({
          "timer-vs-open simultaneity and several data channels per client are outside the property's quantifier", SEQ),
  "C17": ("bounded symbolic model checking of RedialPacketConn under every schedule (carrier directions failing in any order; leak oracle: no goroutine retained per redial or after Close), of QueuePacketConn for every operation sequence up to the bound (per-address FIFO, no aliasing, drop when full, fail after Close) and of the client map with an explicit symbolic clock against a reference map",
          "context.WithCancel stubbed; time arithmetic as integer nanoseconds; redial counts beyond the bound outside", SEQ + "; schedule choices enumerated with sleep sets; leak oracle"),
- "C19": ("partial: binCount for every count < 2^53 in the SMT floating-point theory; the rounded Prometheus counter by an inductive step and under every interleaving of two concurrent Incs; printMetrics pairs each label with its own counter and zeroMetrics resets all of them; unique-address figures for every update sequence up to the bound",
-         "HyperLogLog accuracy, HMAC masking, the journal reader and prometheus exposition are outside the claim", SEQ + " (QF_BV + FloatingPoint)"),
+ "C19": ("partial: binCount for every count < 2^53 in the SMT floating-point theory; the rounded Prometheus counter by an inductive step and under every interleaving of two concurrent Incs; printMetrics pairs each label with its own counter and zeroMetrics resets all of them; unique-address figures for every update sequence up to the bound; the journal reader's window selection over <=2 chunks; per-event counters checked at quiescence in the concurrent broker scenarios",
+         "HyperLogLog accuracy, HMAC masking and prometheus exposition are outside the claim", SEQ + " (QF_BV + FloatingPoint)"),
 })
 CLAIMS.update({
  "C05": ("partial: the real turbotunnelMode, QueuePacketConn, ClientMap and encapsulation code under the engine's scheduler with two concurrent carriers: every upstream packet is attributed to the ClientID of the carrier that sent it (order and bytes kept), every downstream packet reaches only the carrier that presented the addressed ClientID (also when the sender recycles its buffer), a carrier without the token never reaches the session layer, and the session key (ClientID.String) is injective",
          "'one session = exactly one accepted connection whose stream continues' and the one-minute gap are KCP/smux session logic and outside the claim; schedules with a bounded number of preemptions", SEQ + "; schedule choices enumerated with sleep sets and a preemption bound"),
- "C20": ("partial by construction: a vector-clock happens-before monitor (go, channels, mutexes, RWMutex, Once, WaitGroup, atomics) runs inside the bounded concurrent explorations of the broker (2 polls + 1 client, 1 poll + 2 clients; thorough 2+2), the server's two-carrier scenario, the client's End/Collect races, the rounded counter and (thorough) the redialing adapter; any pair of conflicting accesses with a site in repository code that some explored schedule leaves unordered is reported",
+ "C20": ("partial by construction: a vector-clock happens-before monitor (go, channels, mutexes, RWMutex, Once, WaitGroup, atomics) runs inside the bounded concurrent explorations of the broker (2 polls + 1 client, 1 poll + 2 clients; thorough 2+2), the server's two-carrier scenario, the client's End/Collect races, the rounded counter, the server's clientIDMap, the proxy's token semaphore, IPC.Debug while brokering, the distinct-IP journal and (thorough) the redialing adapter; any pair of conflicting accesses with a site in repository code that some explored schedule leaves unordered is reported",
          "the statement is about race-detector runs of whole binaries under load, which solver-based checking cannot perform; only accesses visible to the interpreter are monitored (not inside stubbed libraries)", "happens-before (vector clock) monitor over the schedules enumerated by the symbolic executor"),
 })
 REASONS = {
